@@ -146,11 +146,19 @@ class MCNP_Lexer(Lexer):
         """
         A ``c`` style comment.
         """
-        self.lineno += t.value.count("\n")
-        start = self.find_column(self.text, t)
-        if start > 5:
-            t.type = "TEXT"
-        return t
+        # a comment starts within columns 1-5 and nothing but blanks stands before it on its line
+        line_start = self.text.rfind("\n", 0, t.index) + 1
+        before = self.text[line_start : t.index]
+        if len(before) < 5 and not before.strip():
+            self.lineno += t.value.count("\n")
+            return t
+        # anywhere else the letter is a word of its own (particle designator c, option C of SP / SB):
+        # give the rest of the match back to the lexer
+        t.value = t.value[0]
+        t.end = t.index + 1
+        self.index = t.index + 1
+        t.type = "TEXT"
+        return self.TEXT(t)
 
     @_(r"SC\d+.*")
     def SOURCE_COMMENT(self, t):
